@@ -33,6 +33,12 @@ fn main() {
             }
         }));
     }
+    // boundaries of length three with repeats on both sides and two labels (edge-free operands): definedness of the
+    // checked and unchecked lax compositions position by position, and the glued result
+    let bl: Vec<PLax<u8, u8>> = Spec { n_min: 0, n_max: 3, e_min: 0, e_max: 0, ks: 0, kt: 0, lw: 2, lx: 1, a: 1, b: 3, q: 0 }.universe().all_open().into_iter().map(PLax::strict).collect();
+    let br: Vec<PLax<u8, u8>> = Spec { n_min: 0, n_max: 3, e_min: 0, e_max: 0, ks: 0, kt: 0, lw: 2, lx: 1, a: 3, b: 1, q: 0 }.universe().all_open().into_iter().map(PLax::strict).collect();
+    let nbr = br.len() as u64;
+    ctx.run_slice(Slice::new(format!("pairs-boundaries-of-three[{} x {} edge-free diagrams on <=3 nodes, 2 labels]", bl.len(), nbr), bl.len() as u64 * nbr, |i, loc| check_pair(&bl[(i / nbr) as usize], &br[(i % nbr) as usize], loc)));
     // un-quotiented presentations of strict diagrams (every node occurrence its own node, chained by pending
     // unifications): singles, and all pairs of a smaller universe
     let xs1 = if quick { Spec::open(3, 1, 2, 2, 2, 2, 2) } else { Spec::open(2, 2, 2, 2, 2, 2, 2) };
